@@ -19,6 +19,8 @@ import (
 	"golang.org/x/tools/go/packages"
 	"golang.org/x/tools/go/ssa"
 	"golang.org/x/tools/go/ssa/ssautil"
+
+	"github.com/sanity-io/litter"
 )
 
 const RepoModule = "github.com/atombender/go-jsonschema"
@@ -189,6 +191,11 @@ func (i *interpreter) globalCell(g *ssa.Global) *value {
 		}
 	}
 	cell := zero(mustDeref(g.Type()))
+	if g.Pkg != nil && g.Pkg.Pkg.Path() == "github.com/sanity-io/litter" && g.Name() == "Config" {
+		// the library's package-level default configuration: the code under test can reach and
+		// change it (process-wide state), so the interpreter keeps it and the dump bridges read it
+		cell = litterOptionsValue(mustDeref(g.Type()), litter.Config)
+	}
 	if g.Pkg != nil && g.Pkg.Pkg.Path() == "os" {
 		switch g.Name() {
 		case "Stdin", "Stdout", "Stderr":
